@@ -338,6 +338,10 @@ def build(tier):
             'dims.h builders (SMT, no invariant assumed on the inputs): make_dims(sizes...) for 1..5 sizes returns exactly the array (sizes...) (a narrowing pack expansion is refuted by its '
             'conversion obligation); cat_dims(size, dims) for source ranks 1..4 returns exactly (size, dims[0], .., dims[R-1]); the make_dims call-site contract used by the tensor.h / storage.h '
             'targets is now this proved clause',
+            'algorithm.h detail::copy on mapped tensors of rank 1, 2, 3 (SMT, tspec.py detail::copy<R>): for 0 <= isrc, idst < size<0>() exactly one block copy, destination offset idst * P_1, '
+            'source offset isrc * P_1, P_1 coefficients (rank 1: one element), both blocks inside the tensor\'s own buffer; the preconditions of the callees hold (tensor(i): index in range; '
+            'tensor_map_t = tensor_map_t: equal sizes -- the assert in tensor_marray_storage_t::copy -- and source range identical to or disjoint from the destination range). The row copy of the '
+            'three-tensor remove_if target (nv_copy_rows: rows as opaque tokens) is this proved contract, no longer an assumed one',
             'range.h: tensor_range_t(begin, end), make_range, begin, end, size (== end - begin, no overflow for ends in (-2^62, 2^62)), valid(n) <=> 0 <= begin < end <= n',
             'pointer level (CBMC, ranks 1..3): in tvector / ttensor / tmatrix / tslice the real expression ptr + offset0(..) stays inside the array object of size() doubles and the mapped range '
             '[pointer, pointer + extent) is addressable memory of that object; operator()(index) returns data() + index inside the object. The offsets\' contracts are ASSUMED there exactly as '
@@ -355,7 +359,6 @@ def build(tier):
         'not_decided': ['storage conversions for ranks >= 2 (the storage classes are rank-generic text; the CBMC targets instantiate rank 1, where size() is the extent itself), '
                         'implicit member destruction (~tensor_vector_storage_t has no statement in the AST), allocation failure (std::bad_alloc path)', 'summed-area table VALUES for ranks >= 2 and for floating-point outputs',
                         'Eigen Map construction itself (map_vector / map_matrix / map_tensor are constructors: their result is modelled as (pointer, extent))',
-                        'detail::copy on rank >= 2 tensors (assigns tensor_map_t temporaries: object semantics) -- in the three-tensor remove_if target it is an ASSUMED contract (row idst := row isrc, rows in range checked)',
 'tensor.h numeric helpers (zero, full, random, min, max, ... : Eigen expressions over vector())'],
         'assumptions': ['tensor invariant: every extent >= 0 and every suffix product of the extents <= 2^62 (precondition, reported)',
                         'template arguments of calls inside templates are read from the source text and evaluated under the instantiation bindings',
